@@ -192,4 +192,22 @@ where
           simp only [hn] at h
           exact run_queue_le p t a1 b h (next_queue_le p a a1 l hn hq)
 
+/-- The application reading all its events: from an idle state `consume` as many times as there are
+queued events empties the queue. -/
+theorem drain_queue (p : Params) : ∀ (n : Nat) (s : Sys), s.queue.length = n → s.pend = [] →
+    ∃ s', run p s (List.replicate n .consume) = some s' ∧ s'.pend = [] ∧ s'.queue = []
+  | 0, s, hq, hp => ⟨s, rfl, hp, List.eq_nil_of_length_eq_zero hq⟩
+  | n + 1, s, hq, hp => by
+    cases hqe : s.queue with
+    | nil => simp [hqe] at hq
+    | cons ev q =>
+      have hn : next p s .consume = some (.ok { s with queue := q, delivered := s.delivered ++ [ev] }) := by
+        simp [next, hqe]
+      obtain ⟨s', hr, hp', hq'⟩ := drain_queue p n { s with queue := q, delivered := s.delivered ++ [ev] }
+        (by simp [hqe] at hq; simpa using hq) hp
+      exact ⟨s', by rw [List.replicate_succ, run_cons_ok hn]; exact hr, hp', hq'⟩
+
+theorem inputsOf_consumes (n : Nat) : inputsOf (List.replicate n Label.consume) = [] :=
+  inputsOf_internal _ (fun l hl => by rw [List.eq_of_mem_replicate hl]; rfl)
+
 end VaxisModel.Lemmas.InputLive
